@@ -124,7 +124,7 @@ inductive Cmp where
   | ok | skip (why : String) | fail (why : String)
 
 def cmpArr (name : String) (model impl : Array Float) (tol scale : Float) : Cmp :=
-  if !(tol ≤ 1e-2 * scale) && !(scale == 0.0 && tol == 0.0) then .skip s!"{name}:ill-conditioned"
+  if !(tol ≤ 5e-2 * scale) && !(scale == 0.0 && tol == 0.0) then .skip s!"{name}:ill-conditioned"
   else
     let d := maxDiff model impl
     if d ≤ tol then .ok else .fail s!"{name}:maxdiff={fmtF d}>tol={fmtF tol}"
@@ -158,7 +158,9 @@ def wants (focus : String) (comp : String) : Bool :=
   | "C03" => comp == "jac"
   | "C10" => comp == "res" || comp == "coef" || comp == "jac" || comp == "twins" || comp == "params"
   | "C18" => comp == "eps" || comp == "yw" || comp == "params" || comp == "res" || comp == "coef"
-  | "C11" => comp == "res" || comp == "coef" || comp == "jac" || comp == "params"
+  | "C11" => comp == "res" || comp == "coef" || comp == "jac" || comp == "params" || comp == "ptwins"
+  | "C06" => comp == "res" || comp == "coef" || comp == "jac" || comp == "yw" || comp == "wtwins"
+  | "C07" => comp == "res" || comp == "coef" || comp == "jac" || comp == "stwins"
   | _ => true
 
 def optPresence {α : Type} (name : String) (model : Option α) (impl : Option (Option β)) : Cmp :=
@@ -192,6 +194,7 @@ def handleState (focus : String) (c : Case) : String := Id.run do
   let width := attrNat c.header "width" 64
   let u := unitRoundoff width
   let cw := 1000.0
+  let dsvd := svdBackwardError width
   let steps := parseSteps c
   let tagBase := s!"{attrStr c.header "flavour"}/{width}/{attrStr c.header "wkind"}/{attrStr c.header "origin"}"
   if steps.size == 0 then
@@ -264,8 +267,11 @@ def handleState (focus : String) (c : Case) : String := Id.run do
       let Ywf := FMat.ofMat P.Yw
       let cmax := Cm.maxAbs; let rmax := Rm.maxAbs; let ymax := Ywf.maxAbs
       let kap := cond.kappa
-      let tolC := cw * u * (kap * cmax + kap * kap * rmax / cond.smax + ymax / cond.sminKept)
-      let tolR := cw * u * (kap * rmax + cond.smax * cmax * m.toFloat + ymax)
+      -- perturbation bounds for a least-squares solve whose SVD has backward error `dsvd`, plus
+      -- rounding of the remaining operations
+      let pert := kap * cmax + kap * kap * rmax / cond.smax + ymax / cond.sminKept
+      let tolC := (dsvd + cw * u) * pert
+      let tolR := (dsvd + cw * u) * (cond.smax * pert + ymax)
       if rmax > 1e-3 * ymax && m ≥ 2 then acc := { acc with nontrivial := true }
       if cond.ambiguous then
         acc := { acc with skips := acc.skips + 1 }
@@ -281,14 +287,14 @@ def handleState (focus : String) (c : Case) : String := Id.run do
             let keepS := FMat.ofFn sig.size sig.size fun i j => if i == j && sig[i]! > eps then sig[i]! else 0.0
             let Aeps := (Uf.mul keepS).mul Vt
             let ne := Aeps.transpose.mul (Ywf.sub (Aeps.mul ci))
-            let tolNE := cw * u * cond.smax * (cond.smax * cmax * (m.toFloat + 1.0) + ymax) * kap
-            if tolNE ≤ 1e-2 * cond.smax * (ymax + cond.smax * cmax) then
+            let tolNE := (dsvd + cw * u) * cond.smax * (cond.smax * cmax * (m.toFloat + 1.0) + ymax) * kap
+            if tolNE ≤ 5e-2 * cond.smax * (ymax + cond.smax * cmax) then
               if !(ne.maxAbs ≤ tolNE) then
                 acc := { acc with mon := acc.mon.push s!"step{si}:normal-eq={fmtF ne.maxAbs}>tol={fmtF tolNE}" }
               acc := { acc with compared := acc.compared + 1 }
             let dropV := FMat.ofFn sig.size m fun i j => if sig[i]! > eps then 0.0 else Vt.get i j
             let nulC := dropV.mul ci
-            if tolC ≤ 1e-2 * (max cmax 1e-300) then
+            if tolC ≤ 5e-2 * (max cmax 1e-300) then
               if !(nulC.maxAbs ≤ tolC) then
                 acc := { acc with mon := acc.mon.push s!"step{si}:not-min-norm={fmtF nulC.maxAbs}" }
             if !ci.allFinite then
@@ -316,7 +322,7 @@ def handleState (focus : String) (c : Case) : String := Id.run do
               let dmax := step.tables.d.foldl (fun a d => match d with
                 | some f => max a (FMat.ofMat (wmul w (f.toMat n m))).maxAbs | none => a) 0.0
               let jscale := max (dmax * cmax * m.toFloat) 1e-300
-              let tolJ := cw * u * (kap * jscale + dmax * m.toFloat * tolC / (cw * u) * u * cw)
+              let tolJ := (dsvd + cw * u) * kap * jscale + dmax * m.toFloat * tolC
               acc := acc.addCorr (cmpArr s!"step{si}:jac" Jf.a Ji.a tolJ jscale)
               -- monitors on the implementation's J: every block is orthogonal to range(WΦ);
               -- J_k = −(I − P) D_k C with the driver's own projector and the implementation's C
@@ -330,7 +336,7 @@ def handleState (focus : String) (c : Case) : String := Id.run do
                     let expect := (IP.mul (Dk.mul ci))
                     let block := FMat.ofFn n s fun i cc => Ji.get (i + cc * n) k
                     let sum := FMat.ofFn n s fun i cc => block.get i cc + expect.get i cc
-                    if tolJ ≤ 1e-2 * jscale then
+                    if tolJ ≤ 5e-2 * jscale then
                       if !(sum.maxAbs ≤ tolJ) then
                         acc := { acc with mon := acc.mon.push s!"step{si}:J{k}+(I-P)DkC={fmtF sum.maxAbs}>tol={fmtF tolJ}" }
                       let orth := Aw.transpose.mul block
@@ -357,6 +363,80 @@ def handleState (focus : String) (c : Case) : String := Id.run do
           | some x, some y => acc := acc.addMon (cmpBits s!"step{si}:{pre}-jac" x.a y.a)
           | none, none => pure ()
           | _, _ => acc := { acc with mon := acc.mon.push s!"step{si}:{pre}-jac-presence" }
+    -- --- C06 / C11 twins: whole outputs must agree (same arithmetic on both sides)
+    let twinList : List String :=
+      (if wants focus "wtwins" then ["twinW", "twinU", "twinZ"] else []) ++
+      (if wants focus "ptwins" then ["twinSeq", "twinInto"] else [])
+    for pre in twinList do
+      if (step.obs.find? (·.1 == pre)).isSome then
+        let t := step.get pre
+        let tolT (a : Array Float) : Float :=
+          (if pre == "twinZ" then 100.0 * dsvd else 256.0 * u) * (max (arrMaxAbs a) 1e-300)
+        let cmpT (name : String) (a b : Array Float) (acc : Acc) : Acc :=
+          let d := maxDiff a b
+          let acc := { acc with compared := acc.compared + 1 }
+          if d ≤ tolT a then acc else { acc with mon := acc.mon.push s!"step{si}:{pre}-{name}:{fmtF d}>tol={fmtF (tolT a)}" }
+        if let some pm := t.panic then
+          acc := { acc with mon := acc.mon.push s!"step{si}:{pre}-panic:{pm}" }
+        if let (some a, some b) := (o.res, t.res) then
+          match a, b with
+          | some x, some y => acc := cmpT "res" x y acc
+          | none, none => pure ()
+          | _, _ => acc := { acc with mon := acc.mon.push s!"step{si}:{pre}-res-presence" }
+        if let (some a, some b) := (o.coef, t.coef) then
+          match a, b with
+          | some x, some y => acc := cmpT "coef" x.a y.a acc
+          | none, none => pure ()
+          | _, _ => acc := { acc with mon := acc.mon.push s!"step{si}:{pre}-coef-presence" }
+        if let (some a, some b) := (o.jac, t.jac) then
+          match a, b with
+          | some x, some y => acc := cmpT "jac" x.a y.a acc
+          | none, none => pure ()
+          | _, _ => acc := { acc with mon := acc.mon.push s!"step{si}:{pre}-jac-presence" }
+        if let (some a, some b) := (o.params, t.params) then
+          acc := acc.addMon (cmpBits s!"step{si}:{pre}-params" a b)
+    -- --- C07 twins: block j of the S-column problem = the single problem on column j;
+    --     reversed column order permutes blocks and coefficient columns
+    if wants focus "stwins" then
+      let tolT (a : Array Float) : Float := 256.0 * u * (max (arrMaxAbs a) 1e-300)
+      for j in [0:s] do
+        let pre := s!"twinS{j}"
+        if (step.obs.find? (·.1 == pre)).isSome then
+          let t := step.get pre
+          if let (some (some x), some (some y)) := (o.res, t.res) then
+            let blk := x.extract (j * n) ((j + 1) * n)
+            let d := maxDiff blk y
+            acc := { acc with compared := acc.compared + 1 }
+            if !(d ≤ tolT x) then acc := { acc with mon := acc.mon.push s!"step{si}:{pre}-res:{fmtF d}" }
+          else if let (some a, some b) := (o.res, t.res) then
+            if a.isSome != b.isSome then acc := { acc with mon := acc.mon.push s!"step{si}:{pre}-res-presence" }
+          if let (some (some x), some (some y)) := (o.coef, t.coef) then
+            let colj := (Array.range m).map fun i => x.get i j
+            let d := maxDiff colj y.a
+            acc := { acc with compared := acc.compared + 1 }
+            if !(d ≤ tolT x.a) then acc := { acc with mon := acc.mon.push s!"step{si}:{pre}-coef:{fmtF d}" }
+          if let (some (some x), some (some y)) := (o.jac, t.jac) then
+            let blk := (FMat.ofFn n p fun i k => x.get (i + j * n) k).a
+            let d := maxDiff blk y.a
+            acc := { acc with compared := acc.compared + 1 }
+            if !(d ≤ tolT x.a) then acc := { acc with mon := acc.mon.push s!"step{si}:{pre}-jac:{fmtF d}" }
+      if (step.obs.find? (·.1 == "twinR")).isSome then
+        let t := step.get "twinR"
+        if let (some (some x), some (some y)) := (o.res, t.res) then
+          let perm := (FMat.ofFn n s fun i j => y.getD (i + (s - 1 - j) * n) 0.0).a
+          let d := maxDiff x perm
+          acc := { acc with compared := acc.compared + 1 }
+          if !(d ≤ tolT x) then acc := { acc with mon := acc.mon.push s!"step{si}:twinR-res:{fmtF d}" }
+        if let (some (some x), some (some y)) := (o.coef, t.coef) then
+          let perm := (FMat.ofFn m s fun i j => y.get i (s - 1 - j)).a
+          let d := maxDiff x.a perm
+          acc := { acc with compared := acc.compared + 1 }
+          if !(d ≤ tolT x.a) then acc := { acc with mon := acc.mon.push s!"step{si}:twinR-coef:{fmtF d}" }
+        if let (some (some x), some (some y)) := (o.jac, t.jac) then
+          let perm := (FMat.ofFn (n * s) p fun q k => y.get ((q % n) + (s - 1 - q / n) * n) k).a
+          let d := maxDiff x.a perm
+          acc := { acc with compared := acc.compared + 1 }
+          if !(d ≤ tolT x.a) then acc := { acc with mon := acc.mon.push s!"step{si}:twinR-jac:{fmtF d}" }
     if si + 1 == steps.size && wants focus "yw" then
       if let some ywf := o.ywfinal then
         acc := acc.addMon (cmpBits s!"step{si}:yw-unchanged" (FMat.ofMat P.Yw).a ywf.a)
